@@ -7,11 +7,12 @@ set -e
 cd "$(dirname "$0")/.."
 export GOFLAGS=-mod=mod GOPROXY=off GOSUMDB=off GOTOOLCHAIN=local
 REPO="${VERIF_REPO:-/repo}"
-mkdir -p build coq/gen
+GEN="${VERIF_COQ:-coq}/gen"
+mkdir -p build "$GEN"
 BIN=build/go2coq
 newest=$(ls -t tools/go2coq/*.go tools/go2coq/go.mod | head -1)
 if [ ! -x "$BIN" ] || [ "$newest" -nt "$BIN" ]; then
   (cd tools/go2coq && go build -o "../../$BIN.tmp.$$" . ) && mv -f "$BIN.tmp.$$" "$BIN"
 fi
 if [ $# -eq 0 ]; then set -- tools/go2coq/specs/*.spec; fi
-exec "$BIN" -repo "$REPO" -out coq/gen "$@"
+exec "$BIN" -repo "$REPO" -out "$GEN" "$@"
